@@ -727,3 +727,135 @@ def register(gen, T):
         out.append(f"def tagParameterAsModelled : Bool := {lb(tag_param)}\n")
         out.append(T.footer("MslGenTables"))
         return "".join(out)
+
+    @gen("MslVecTables")
+    def msl_vec_tables():
+        """shape-changing arms of the Metal generate_expression (Swizzle on vectors and on scalars, Constructor, the
+        non-struct half of Cast with try_implicit_truncate), the Vector / Matrix arms of generate_type_impl, the matrix arms
+        of generate_intrinsic_function (mul, transpose) and the rejection of matrix subscripts / matrix swizzles: what
+        Model/GenMslVec.lean mirrors.  `SwizzleSlot` is the enum of Gen.HlslVecTables (same ir:: type)."""
+        from rustsrc import ExtractError, fn_body, first_match, match_arms, enum_variants, normws, lean_str
+        gm = T.src("msl/src/generator.rs")
+        expr_rs = T.src("ir/src/ir_expressions.rs")
+        hdr = T.header("MslVecTables", ["msl/src/generator.rs", "ir/src/ir_expressions.rs"])
+        first, rest = hdr.split("\n", 1)
+        out = [first + "\nimport RsslVerif.Gen.HlslVecTables\n" + rest + "open RsslVerif.Gen.HlslVecTables\n\n"]
+
+        def lb(b):
+            return "true" if b else "false"
+
+        slots = [v for v, payload in enum_variants(expr_rs, "SwizzleSlot")]
+        ebody = fn_body(gm, "generate_expression")
+        _, earms, _ = first_match(ebody, r'^expr$')
+        facts = {"mslSwizzleArmAsModelled": False, "mslConstructorArmAsModelled": False, "mslCastHeadAsModelled": False,
+                 "mslCastTruncatesThenCasts": False, "matrixSwizzleRejected": False, "matrixSubscriptRejected": False}
+        chars = {}
+        trunc = {}
+        for pats, guard, result in match_arms(earms):
+            r = normws(result)
+            if pats == ["ir::Expression::Swizzle(expr_object, swizzle)"]:
+                m = re.fullmatch(
+                    r'\{ let object_ty = match expr_object\.get_type\(context\.module\) \{ Ok\(ty\) => context\.module\.type_registry\.remove_modifier\(ty\.0\), '
+                    r'Err\(_\) => return Err\(GenerateError::InvalidModule\), \}; let object_tyl = context\.module\.type_registry\.get_type_layer\(object_ty\); '
+                    r'let object = generate_expression\(expr_object, context\)\?; match object_tyl \{ ir::TypeLayer::Scalar\(st\) => \{ '
+                    r'let output_size = swizzle\.len\(\); for channel in swizzle \{ assert_eq!\(\*channel, ir::SwizzleSlot::X\); \} '
+                    r'if output_size == 1 \{ object \} else \{ let output_ty = \{ let st = match st \{ '
+                    r'ir::ScalarType::IntLiteral => ir::ScalarType::Int32, ir::ScalarType::FloatLiteral => ir::ScalarType::Float32, st => st, \}; '
+                    r'let inner = context \.module \.type_registry \.register_type\(ir::TypeLayer::Scalar\(st\)\); '
+                    r'context \.module \.type_registry \.register_type\(ir::TypeLayer::Vector\(inner, output_size as u32\)\) \}; '
+                    r'let ty = generate_type\(output_ty, context\)\?; assert_eq!\(ty\.layout\.1\.len\(\), 0\); assert!\(ty\.modifiers\.modifiers\.is_empty\(\)\); '
+                    r'ast::Expression::Call\( Box::new\(Located::none\(ast::Expression::Identifier\(ty\.layout\.0\)\)\), Vec::new\(\), '
+                    r'Vec::from\(\[Located::none\(object\)\]\), \) \} \} ir::TypeLayer::Vector\(_, _\) => \{ let member = \{ let mut member = String::new\(\); '
+                    r'for channel in swizzle \{ match channel \{ (.*?),? \} \} ast::ScopedIdentifier::trivial\(&member\) \}; '
+                    r'ast::Expression::Member\(Box::new\(Located::none\(object\)\), member\) \} _ => return Err\(GenerateError::InvalidModule\), \} \}', r)
+                if m:
+                    ok = True
+                    for arm in [x.strip() for x in m.group(1).split(",") if x.strip()]:
+                        am = re.fullmatch(r"ir::SwizzleSlot::([A-Za-z]+) => member\.push\('([a-z])'\)", arm)
+                        if not am or am.group(1) not in slots or am.group(1) in chars:
+                            ok = False
+                            break
+                        chars[am.group(1)] = am.group(2)
+                    facts["mslSwizzleArmAsModelled"] = ok and sorted(chars) == sorted(slots)
+            elif pats == ["ir::Expression::Constructor(type_id, args)"]:
+                facts["mslConstructorArmAsModelled"] = r == (
+                    '{ let unmodified_id = context.module.type_registry.remove_modifier(*type_id); '
+                    'let ty = generate_type(unmodified_id, context)?; assert!(ty.modifiers.modifiers.is_empty()); '
+                    'let name = ast::Expression::Identifier(ty.layout.0); let name = Box::new(Located::none(name)); '
+                    'let mut ast_args = Vec::new(); for slot in args { ast_args.push(Located::none(generate_expression(&slot.expr, context)?)); } '
+                    'ast::Expression::Call(name, ty.layout.1.to_vec(), ast_args) }')
+            elif pats == ["ir::Expression::MatrixSwizzle(_, _)"]:
+                facts["matrixSwizzleRejected"] = r == '{ return Err(GenerateError::UnimplementedMatrixSwizzle); }'
+            elif pats == ["ir::Expression::ArraySubscript(expr_object, expr_index)"]:
+                facts["matrixSubscriptRejected"] = r.startswith(
+                    '{ let type_id = match expr_object.get_type(context.module) { Ok(ty) => context.module.type_registry.remove_modifier(ty.0), '
+                    'Err(_) => return Err(GenerateError::InvalidModule), }; let tyl = context.module.type_registry.get_type_layer(type_id); '
+                    'if let ir::TypeLayer::Matrix(_, _, _) = tyl { return Err(GenerateError::UnimplementedMatrixIndex); }')
+            elif pats == ["ir::Expression::Cast(type_id, expr)"]:
+                head = ('{ let unmod_id = context.module.type_registry.remove_modifier(*type_id); '
+                        'let unmod_tyl = context.module.type_registry.get_type_layer(unmod_id); '
+                        'let input_ety = expr.get_type(context.module)?; let input_ty = context.module.type_registry.remove_modifier(input_ety.0); '
+                        'let input_tyl = context.module.type_registry.get_type_layer(input_ty); let to_literal = matches!( unmod_tyl, '
+                        'ir::TypeLayer::Scalar(ir::ScalarType::IntLiteral) | ir::TypeLayer::Scalar(ir::ScalarType::FloatLiteral) ); '
+                        'let inner = generate_expression(expr, context)?; let to_struct = matches!(unmod_tyl, ir::TypeLayer::Struct(_)); if to_struct {')
+                facts["mslCastHeadAsModelled"] = r.startswith(head) and r.count("generate_expression(") == 1
+                tm = re.search(
+                    r'\} else if !to_literal \{ fn try_implicit_truncate\( input_tyl: ir::TypeLayer, unmod_tyl: ir::TypeLayer, expr: ast::Expression, \) '
+                    r'-> ast::Expression \{ match input_tyl \{ ir::TypeLayer::Vector\(_, in_dim\) => \{ let swizzle = match unmod_tyl \{ '
+                    r'ir::TypeLayer::Scalar\(_\) => "([a-z]+)", ir::TypeLayer::Vector\(_, 2\) if 2 < in_dim => "([a-z]+)", '
+                    r'ir::TypeLayer::Vector\(_, 3\) if 3 < in_dim => "([a-z]+)", _ => return expr, \}; ast::Expression::Member\( '
+                    r'Box::new\(Located::none\(expr\)\), ast::ScopedIdentifier::trivial\(swizzle\), \) \} _ => expr, \} \} '
+                    r'let inner = try_implicit_truncate\(input_tyl, unmod_tyl, inner\); let ty = generate_type_id\(\*type_id, context\)\?; '
+                    r'ast::Expression::Cast\(Box::new\(ty\), Box::new\(Located::none\(inner\)\)\) \} else \{ inner \} \}$', r)
+                if tm:
+                    trunc = {"scalar": tm.group(1), "vec2": tm.group(2), "vec3": tm.group(3)}
+                    facts["mslCastTruncatesThenCasts"] = True
+        if sorted(chars) != sorted(slots):
+            raise ExtractError(f"msl generate_expression: Swizzle arm does not give one letter per SwizzleSlot ({chars})")
+        if not trunc:
+            raise ExtractError("msl generate_expression: Cast arm: try_implicit_truncate not in the expected shape")
+        out.append("/-- letter pushed for each channel by the vector half of the Swizzle arm -/\ndef mslSwizzleChar : SwizzleSlot → Char\n" +
+                   "".join(f"  | .{s} => '{chars[s]}'\n" for s in slots) + "\n")
+        out.append("/-- `try_implicit_truncate`: the member selected from a vector operand before a cast to a scalar / to a 2-vector from a\n"
+                   "longer one / to a 3-vector from a longer one (Metal has no vector → scalar / vector → shorter vector conversion) -/\n"
+                   f"def truncateToScalar : String := {lean_str(trunc['scalar'])}\n"
+                   f"def truncateToVec2 : String := {lean_str(trunc['vec2'])}\n"
+                   f"def truncateToVec3 : String := {lean_str(trunc['vec3'])}\n\n")
+        # generate_type_impl: Vector / Matrix arms
+        tbody = fn_body(gm, "generate_type_impl")
+        _, tarms, _ = first_match(tbody, r'^tyl$')
+        vec_ok = False
+        mat_ok = False
+        for pats, guard, result in match_arms(tarms):
+            r = normws(result)
+            if pats == ["ir::TypeLayer::Vector(st, x)"]:
+                vec_ok = r == ('{ let (mut base, inner_declarator) = generate_type_impl(st, declarator, false, context)?; '
+                               'declarator = inner_declarator; assert!(base.layout.0.identifiers.len() == 1); '
+                               'if x != 1 { base.layout.0.identifiers[0].node += &format!("{x}"); } base }')
+            elif pats == ["ir::TypeLayer::Matrix(st, x, y)"]:
+                mat_ok = r == ('{ let base_name = match context.module.type_registry.get_type_layer(st) { '
+                               'ir::TypeLayer::Scalar(ir::ScalarType::Float16) => "half", ir::TypeLayer::Scalar(ir::ScalarType::Float32) => "float", '
+                               '_ => return Err(GenerateError::UnsupportedNonFloatMatrix), }; if x == 1 || y == 1 { return Err(GenerateError::UnsupportedUnitMatrix); } '
+                               'let name = format!("{base_name}{y}x{x}"); let mut type_name = ast::Type::trivial(&name); '
+                               'type_name .layout .0 .identifiers .insert(0, Located::none("metal".to_string())); type_name }')
+        facts["vectorTypeNameAppendsDimUnlessOne"] = vec_ok
+        facts["matrixTypeNameSwapsDims"] = mat_ok
+        # generate_intrinsic_function: mul / transpose
+        ibody = fn_body(gm, "generate_intrinsic_function")
+        _, iarms, _ = first_match(ibody, r'^&?\s*intrinsic$')
+        mul_ok = False
+        tr_ok = False
+        for pats, guard, result in match_arms(iarms):
+            r = normws(result)
+            if pats == ["Mul"]:
+                mul_ok = r == ('{ assert_eq!(exprs.len(), 2); let left = generate_expression(&exprs[0], context)?; '
+                               'let right = generate_expression(&exprs[1], context)?; let ast = ast::Expression::BinaryOperation( '
+                               'ast::BinOp::Multiply, Box::new(Located::none(left)), Box::new(Located::none(right)), ); Ok(ast) }')
+            elif pats == ["Transpose"]:
+                tr_ok = r == 'invoke_simple("transpose", context)'
+        facts["mulIsMultiplyInOrder"] = mul_ok
+        facts["transposeIsTranspose"] = tr_ok
+        for k, v in facts.items():
+            out.append(f"def {k} : Bool := {lb(v)}\n")
+        out.append(T.footer("MslVecTables"))
+        return "".join(out)
